@@ -291,6 +291,38 @@ def k_read(sim, sock, n, timeout=None, what='read'):
                 raise TimeoutError('timed out')
 
 
+def k_read_waitall(sim, sock, n, timeout=None, what='recv'):
+    """recv(n, MSG_WAITALL) on a blocking stream socket: returns n bytes unless the stream ends, an error is pending - or the
+    call is interrupted after part of the data has been copied: a handled signal on the calling thread, or the whole process
+    being stopped and continued (SIGSTOP / SIGCONT wake every thread of the group).  The bytes copied so far are returned then."""
+    t = sim.me()
+    p = t.proc
+    got = bytearray()
+    while len(got) < n:
+        mark = (p.nstop, t.nsig)
+        had = len(got)
+        rx = sock.rx
+        if had and not rx.buf and sock.state == 'connected' and not (sock.fin_rcvd or sock.dead or sock.shut_rd or sock.err is not None):
+            # wait for more data here, so that an interruption is seen before anything else is consumed
+            sim.block(t, (rx.rq,), timeout=timeout, what=f'{what}:{sock.label}', deliver=False)
+            if (p.nstop, t.nsig) != mark:
+                sim.fault('short-recv-waitall-interrupted')
+                sim.ev('short-recv', t.name, sock.label, had, n)
+                sim.sys_return_point(t)
+                break
+            continue
+        try:
+            d = k_read(sim, sock, n - had, timeout=timeout, what=what)
+        except OSError:
+            if had:
+                break
+            raise
+        if not d:
+            break
+        got += d
+    return bytes(got)
+
+
 def k_write(sim, sock, data, what='write', partial=False):
     """blocking write of all of data; returns len(data).  Like send(2) on a blocking stream socket, errors are
     checked when the call starts and whenever it has to wait for buffer space - not between the bytes of one
